@@ -178,3 +178,46 @@ V("C07", "lt-at-seam", "silent", "", "<= -> < at the continuous seam",
   (CA, "(sqrtqmu_v <= self.sqrtqmuA_v), _true_case, _false_case", "(sqrtqmu_v < self.sqrtqmuA_v), _true_case, _false_case"))
 V("C07", "algebraic-rewrite", "silent", "", "false case rewritten as 0.5*(q/a - a)",
   (CA, "teststat = (qmu - qmu_A) / (2 * self.sqrtqmuA_v)", "teststat = 0.5 * (qmu / self.sqrtqmuA_v - self.sqrtqmuA_v)"))
+
+# ------------------------------------------------------------------ C08
+INF = "src/pyhf/infer/__init__.py"
+V("C08", "band-before-median", "fire", "C08.R1", "band appended before the median when both requested",
+  (INF, "        if return_expected:\n            _returns.append(tb.astensor(pvalues_exp_band[2]))\n        _returns.append(pvalues_exp_band)\n", "        _returns.append(pvalues_exp_band)\n        if return_expected:\n            _returns.append(tb.astensor(pvalues_exp_band[2]))\n"))
+V("C08", "q0-tails", "fire", "C08.R1", "q0 tail probabilities return two values",
+  (INF, "            _returns.append([CLb_obs])", "            _returns.append([CLsb_obs, CLb_obs])"))
+V("C08", "median-index", "fire", "C08.R1", "median taken from the wrong band entry (elif arm only)",
+  (INF, "    elif return_expected:\n        _returns.append(tb.astensor(pvalues_exp_band[2]))", "    elif return_expected:\n        _returns.append(tb.astensor(pvalues_exp_band[1]))"))
+V("C08", "prereq-after-create", "fire", "C08.R2", "prerequisite check after calculator creation",
+  (INF, "    _check_hypotest_prerequisites(pdf, data, init_pars, par_bounds, fixed_params)\n\n    calc = utils.create_calculator(\n        calctype,\n        data,\n        pdf,\n        init_pars,\n        par_bounds,\n        fixed_params,\n        **kwargs,\n    )\n", "    calc = utils.create_calculator(\n        calctype,\n        data,\n        pdf,\n        init_pars,\n        par_bounds,\n        fixed_params,\n        **kwargs,\n    )\n    if return_calculator:\n        _check_hypotest_prerequisites(pdf, data, init_pars, par_bounds, fixed_params)\n"))
+V("C08", "asimov-at-init", "fire", "C08.R3", "Asimov data built at the initial parameters",
+  (CA, "asimov_data = pdf.expected_data(bestfit_nuisance_asimov)", "asimov_data = pdf.expected_data(init_pars)"))
+V("C08", "asimov-mu-swapped", "fire", "C08.R3", "Asimov mu table swapped",
+  (CA, "asimov_mu = 1.0 if self.test_stat == 'q0' else 0.0", "asimov_mu = 0.0 if self.test_stat == 'q0' else 1.0"))
+V("C08", "default-mismatch", "fire", "C08.R4", "hypotest assumes another default statistic",
+  (INF, "kwargs.get('test_stat', 'qtilde') == 'q0'", "kwargs.get('test_stat', 'q0') == 'q0'"))
+V("C08", "kwargs-dropped", "fire", "C08.R5", "calculator options not forwarded",
+  (INF, "        fixed_params,\n        **kwargs,\n    )\n\n    teststat", "        fixed_params,\n    )\n\n    teststat"))
+V("C08", "bounds-init-swapped", "fire", "C08.R5", "init and bounds swapped in create_calculator",
+  (INF, "        pdf,\n        init_pars,\n        par_bounds,\n        fixed_params,\n        **kwargs,", "        pdf,\n        par_bounds,\n        init_pars,\n        fixed_params,\n        **kwargs,"))
+V("C08", "fixedpoi-check-removed", "fire", "C08.R2", "fixed POI no longer refused",
+  (INF, "    if not utils.all_pois_floating(pdf, fixed_params):\n        raise exceptions.InvalidModel(", "    if False:\n        raise exceptions.InvalidModel("))
+V("C08", "tuple-rewrite", "silent", "", "equivalent return expression",
+  (INF, "return tuple(_returns) if len(_returns) > 1 else _returns[0]", "return _returns[0] if len(_returns) == 1 else tuple(_returns)"))
+
+# ------------------------------------------------------------------ C14
+V("C14", "strict-comparator", "fire", "C14.R1", "ties excluded from the tail fraction",
+  (CA, "self.samples >= value, tensorlib.astensor(1), tensorlib.astensor(0)", "self.samples > value, tensorlib.astensor(1), tensorlib.astensor(0)"))
+V("C14", "denominator", "fire", "C14.R1", "denominator off by one",
+  (CA, "            / tensorlib.shape(self.samples)[0]\n", "            / (tensorlib.shape(self.samples)[0] + 1)\n"))
+V("C14", "dists-swapped", "fire", "C14.R2", "s+b wraps the background statistics",
+  (CA, "s_plus_b = EmpiricalDistribution(tensorlib.astensor(signal_teststat))\n        b_only = EmpiricalDistribution(tensorlib.astensor(bkg_teststat))", "s_plus_b = EmpiricalDistribution(tensorlib.astensor(bkg_teststat))\n        b_only = EmpiricalDistribution(tensorlib.astensor(signal_teststat))"))
+V("C14", "bkg-fit-at-poi", "fire", "C14.R2", "background toys generated at the signal hypothesis",
+  (CA, "        bkg_pars = fixed_poi_fit(\n            1.0 if self.test_stat == 'q0' else 0.0,", "        bkg_pars = fixed_poi_fit(\n            poi_test,"))
+V("C14", "bkg-pdf-from-signal-pars", "fire", "C14.R2", "background pdf built from the signal parameters",
+  (CA, "bkg_pdf = self.pdf.make_pdf(bkg_pars)", "bkg_pdf = self.pdf.make_pdf(signal_pars)"))
+V("C14", "toy-stat-init-dropped", "fire", "C14.R2", "background toy statistic loses the bounds",
+  (CA, "                    poi_test,\n                    sample,\n                    self.pdf,\n                    self.init_pars,\n                    self.par_bounds,\n                    self.fixed_params,\n                )\n            )\n\n        s_plus_b", "                    poi_test,\n                    sample,\n                    self.pdf,\n                    self.init_pars,\n                    self.pdf.config.suggested_bounds(),\n                    self.fixed_params,\n                )\n            )\n\n        s_plus_b"))
+V("C14", "sample-shape-dropped", "fire", "C14.R3", "constituents sampled without the requested shape",
+  ("src/pyhf/probability.py", "return self.tv.stitch([p.sample(sample_shape) for p in self])", "return self.tv.stitch([p.sample() for p in self])"))
+V("C14", "flipped-comparison", "silent", "", "value <= samples",
+  (CA, "self.samples >= value, tensorlib.astensor(1), tensorlib.astensor(0)", "value <= self.samples, tensorlib.astensor(1), tensorlib.astensor(0)"))
